@@ -95,6 +95,9 @@ func (c *cache) flushScheduler() {
 						for _, queued := range b {
 							c.flushObjs.Delete(queued)
 						}
+						if !handledAddr {
+							c.flushObjs.Delete(addr)
+						}
 						break addrLoop
 					case c.flushCh <- b:
 					case <-c.closeCh:
